@@ -9,7 +9,7 @@ EXTENDS Source, SettingsPool, Json, SequencesExt
 CONSTANTS FAMILY, ALLSETTINGS, WITHPROG
 
 Cases == CASE FAMILY = "G1a_1" -> G1a_1(0) [] FAMILY = "G1a_2" -> G1a_2(0) [] FAMILY = "G1b" -> G1b(0) [] FAMILY = "G1c" -> G1c(0)
-         [] FAMILY = "G2p_2" -> G2p_2(0) [] FAMILY = "G2p_3" -> G2p_3(0) [] FAMILY = "G2s" -> G2Shapes(0) [] FAMILY = "G2p_3s" -> G2p_3s(0) [] FAMILY = "G7" -> G7(0) [] FAMILY = "G8" -> G8(0) [] FAMILY = "G8b" -> G8b(0) [] FAMILY = "H1" -> H1(0)
+         [] FAMILY = "G2p_2" -> G2p_2(0) [] FAMILY = "G2p_3" -> G2p_3(0) [] FAMILY = "G2s" -> G2Shapes(0) [] FAMILY = "G2p_3s" -> G2p_3s(0) [] FAMILY = "G7" -> G7(0) [] FAMILY = "G8" -> G8(0) [] FAMILY = "G8b" -> G8b(0) [] FAMILY = "H1" -> H1(0) [] FAMILY = "G2d" -> G2Digits(0)
 
 VARIABLES c, S, reg, gst
 vars == <<c, S, reg, gst>>
@@ -78,14 +78,15 @@ M_C07 == gst.res = "ok" =>
              /\ FindItem(ModelRoot, src).kind = "none"
              /\ \A i \in DOMAIN M_AllTys : ~RefersTo(M_AllTys[i], src)
              /\ \A id \in Ids(reg) : LET pr == ResolveTypePath(reg, S, id) IN pr.err = "" => ~RefersTo(pr.ty, src)
-DesignC07 == Terminal => (M_C07 /\ (CF => M_C01))
+DesignC07 == Terminal => (M_C07 /\ ((CF /\ S.codec) => M_C01))
 
 \* C08 on the model: Must <= derives <= May for every generated item (see Props in TV_Gen for the same predicate on the implementation)
 M_C08 == gst.res = "ok" => \A k \in DOMAIN gst.items : C08_ItemOK(reg, S, ModelRoot, gst.items[k].path, gst.items[k].item.derives, gst.items[k].item.attrs, gst.items[k].item)
 DesignC08 == Terminal => M_C08
 
 \* design-level invariants: C01 for coincidence-free programs, C02/C10 for all
-DesignC01 == (Terminal /\ CF) => M_C01
+\* (wire fidelity is stated for settings with codec attributes on: without them compact fields carry no marker)
+DesignC01 == (Terminal /\ CF /\ S.codec) => M_C01
 DesignC02 == Terminal => M_C02
 DesignC10 == Terminal => M_C10
 
@@ -103,5 +104,5 @@ Emit == Terminal =>
                             perms |-> <<[pi |-> [i \in 1..Len(reg) |-> Rev[i - 1]], reg |-> Permute(reg, Rev)],
                                         [pi |-> [i \in 1..Len(reg) |-> Rot[i - 1]], reg |-> Permute(reg, Rot)]>>,
                             retain |-> <<LastUserId>>,
-                            model |-> [res |-> gst.res, c01 |-> M_C01, c02 |-> M_C02, c03 |-> M_C03, c05 |-> M_C05, c17 |-> (Tog => M_C17), teq_sound |-> M_TEqSound]]))
+                            model |-> [res |-> gst.res, c01 |-> (S.codec => M_C01), c02 |-> M_C02, c03 |-> M_C03, c05 |-> M_C05, c17 |-> (Tog => M_C17), teq_sound |-> M_TEqSound]]))
 =================================================================================
